@@ -72,16 +72,16 @@ func harvest(c *Ctx, rng *Rand, w, h int) (c16Parts, bool) {
 
 // one hand-assembled still
 type c16Plan struct {
-	Image      string // "VP8", "VP8A" (VP8 + ALPH), "VP8L", "VP8LAlpha", "VP8LNoBit"
-	AlphKind   int    // 0 none, 1 real, 2 zero-length, 3 one garbage byte (odd), 4 real but after the image is absent -> n/a
-	ICC, EXIF, XMP []byte
+	Image                   string // "VP8", "VP8A" (VP8 + ALPH), "VP8L", "VP8LAlpha", "VP8LNoBit"
+	AlphKind                int    // 0 none, 1 real, 2 zero-length, 3 one garbage byte (odd), 4 real but after the image is absent -> n/a
+	ICC, EXIF, XMP          []byte
 	HasICC, HasEXIF, HasXMP bool
-	FlagMode   int // 0 exact, 1 overstate everything, 2 understate everything, 3 random
-	MetaOrder  int // 0 spec order, 1 EXIF/XMP before the image, 2 ICCP after the image
-	Unknown    int // 0 none, 1 before image, 2 after image, 3 both (odd-sized payload)
-	VP8XSize   int // 10 normal, 12 oversize
-	CanvasMode int // 0 = image size, 1 larger, 2 smaller
-	DupALPH    bool
+	FlagMode                int // 0 exact, 1 overstate everything, 2 understate everything, 3 random
+	MetaOrder               int // 0 spec order, 1 EXIF/XMP before the image, 2 ICCP after the image
+	Unknown                 int // 0 none, 1 before image, 2 after image, 3 both (odd-sized payload)
+	VP8XSize                int // 10 normal, 12 oversize
+	CanvasMode              int // 0 = image size, 1 larger, 2 smaller
+	DupALPH                 bool
 }
 
 func (pl *c16Plan) build(p *c16Parts, rng *Rand) (data []byte, wf bool) {
@@ -194,14 +194,14 @@ func (pl *c16Plan) build(p *c16Parts, rng *Rand) (data []byte, wf bool) {
 }
 
 type c16Obs struct {
-	Dec, DecModel         string // Decode: "E" | "WxH", colour model
-	DecDigest             string
-	Cfg, Feat             string
-	Format                string
-	ImgDec, ImgCfg        string // image.Decode / image.DecodeConfig: format name or "E"/"ErrFormat"
-	Dmx, Anim             string // demuxer and DecodeBytes views "E" | "w,h,anim,frames,loop"
-	PanicMsg              string
-	nonOpaque             bool
+	Dec, DecModel  string // Decode: "E" | "WxH", colour model
+	DecDigest      string
+	Cfg, Feat      string
+	Format         string
+	ImgDec, ImgCfg string // image.Decode / image.DecodeConfig: format name or "E"/"ErrFormat"
+	Dmx, Anim      string // demuxer and DecodeBytes views "E" | "w,h,anim,frames,loop"
+	PanicMsg       string
+	nonOpaque      bool
 }
 
 func observe(data []byte) (o c16Obs) {
@@ -378,6 +378,17 @@ func c16Check(c *Ctx, f *c16File) {
 			if fan == "0" && (dl != floop) {
 				c.Count("note:still-loopcount-differs(parser=1,demuxer=0)")
 			}
+			if fan == "0" {
+				// C16_get_features_still_loop: LoopCount of a still is 1 on the VP8X layout, 0 on the simple ones; demuxer 0
+				want := 0
+				if ffmt == 3 {
+					want = 1
+				}
+				c.Count("still-loopcount:evaluated")
+				if floop != want || dl != 0 {
+					c.Violate("still-loop-count-unexpected", fmt.Sprintf("still (format %d): GetFeatures LoopCount %d (expected %d), demuxer %d (expected 0)", ffmt, floop, want, dl), replay)
+				}
+			}
 		}
 	}
 }
@@ -512,6 +523,69 @@ func handAnim(p *c16Parts, r *Rand) (data []byte, wf bool, kind string) {
 	return riffFile(body), wf, fmt.Sprintf("handanim-flag=%v-anim%d-frames=%s", flagAnim, animMode, kinds)
 }
 
+// c16Limits: the shared limits of the two container parsers on the real code, direct evaluation only
+// (these files are too large for the extracted list-based model): C16_too_many_frames_both_reject,
+// C16_big_iccp_both_reject, and the note about trailing EXIF above the cap in a still.
+func c16Limits(c *Ctx, p *c16Parts, thorough bool) {
+	accepts := func(data []byte) (feat, dmx bool, nf, nd int) {
+		if f, err := webp.GetFeatures(bytes.NewReader(data)); err == nil {
+			feat, nf = true, f.FrameCount
+		}
+		if d, err := mux.NewDemuxer(data); err == nil {
+			dmx, nd = true, d.NumFrames()
+		}
+		return
+	}
+	anim := chunkBytes("ANIM", []byte{1, 2, 3, 4, 5, 0})
+	frame := chunkBytes("ANMF", anmfPayload(0, 0, p.W, p.H, 10, 0, chunkBytes("VP8 ", p.VP8)))
+	animHead := append(chunkBytes("VP8X", vp8xPayload(2, p.W, p.H)), anim...)
+	for _, n := range []int{10000, 10001} {
+		c.D.Evaluations++
+		body := append([]byte(nil), animHead...)
+		for i := 0; i < n; i++ {
+			body = append(body, frame...)
+		}
+		feat, dmx, nf, nd := accepts(riffFile(body))
+		c.Count(fmt.Sprintf("limit:frames=%d:GetFeatures=%v:demuxer=%v", n, feat, dmx))
+		c.Nontrivial(fmt.Sprintf("limit|frames=%d", n))
+		replay := map[string]any{"kind": "limit-frames", "frames": n, "w": p.W, "h": p.H}
+		want := n <= 10000
+		if feat != want || dmx != want {
+			c.Violate("limit-frames-not-shared", fmt.Sprintf("%d ANMF frames: GetFeatures accepts=%v, demuxer accepts=%v (both expected %v)", n, feat, dmx, want), replay)
+		} else if want && (nf != n || nd != n) {
+			c.Violate("views-disagree-frame-count", fmt.Sprintf("frames: GetFeatures %d, demuxer %d, file has %d", nf, nd, n), replay)
+		}
+	}
+	const cap100 = 100 * 1024 * 1024
+	sizes := []int{cap100 + 1}
+	if thorough {
+		sizes = append(sizes, cap100)
+	}
+	for _, n := range sizes {
+		// ICCP directly after VP8X in an animated file
+		c.D.Evaluations++
+		body := append(chunkBytes("VP8X", vp8xPayload(2|0x20, p.W, p.H)), chunkBytes("ICCP", make([]byte, n))...)
+		body = append(append(body, anim...), frame...)
+		feat, dmx, _, _ := accepts(riffFile(body))
+		c.Count(fmt.Sprintf("limit:iccp=100MB%+d:GetFeatures=%v:demuxer=%v", n-cap100, feat, dmx))
+		c.Nontrivial(fmt.Sprintf("limit|iccp=%d", n))
+		want := n <= cap100
+		if feat != want || dmx != want {
+			c.Violate("limit-metadata-not-shared", fmt.Sprintf("ICCP of %d bytes: GetFeatures accepts=%v, demuxer accepts=%v (both expected %v)", n, feat, dmx, want), map[string]any{"kind": "limit-iccp", "len": n})
+		}
+	}
+	{
+		// a still whose EXIF chunk (after the image chunk) is above the cap: container.Parser returns at the
+		// image chunk and never sees it, the demuxer walks on and refuses it.  Counted, not reported.
+		c.D.Evaluations++
+		body := append(chunkBytes("VP8X", vp8xPayload(0x08, p.W, p.H)), chunkBytes("VP8 ", p.VP8)...)
+		body = append(body, chunkBytes("EXIF", make([]byte, cap100+1))...)
+		feat, dmx, _, _ := accepts(riffFile(body))
+		c.Count(fmt.Sprintf("note:still-trailing-EXIF=100MB+1:GetFeatures=%v:demuxer=%v (the parser stops at the image chunk)", feat, dmx))
+		c.Nontrivial("limit|still-trailing-exif")
+	}
+}
+
 // edgeFiles: one hand-made file per error branch / limit of the container parser.
 func edgeFiles(p *c16Parts, thorough bool) []c16File {
 	var out []c16File
@@ -541,14 +615,22 @@ func edgeFiles(p *c16Parts, thorough bool) []c16File {
 	huge2 := append([]byte("VP8 \xf6\xff\xff\xff"), p.VP8...)
 	add("chunk-size-max-payload", riffFile(huge2))
 	// VP8 / VP8L headers
-	bad := func(mut func([]byte)) []byte { d := append([]byte(nil), p.VP8...); mut(d); return riffFile(chunkBytes("VP8 ", d)) }
+	bad := func(mut func([]byte)) []byte {
+		d := append([]byte(nil), p.VP8...)
+		mut(d)
+		return riffFile(chunkBytes("VP8 ", d))
+	}
 	add("vp8-not-keyframe", bad(func(d []byte) { d[0] |= 1 }))
 	add("vp8-bad-signature", bad(func(d []byte) { d[4] = 0 }))
 	add("vp8-zero-width", bad(func(d []byte) { d[6], d[7] = 0, d[7]&0xc0 }))
 	add("vp8-zero-height", bad(func(d []byte) { d[8], d[9] = 0, 0x40 }))
 	add("vp8-scale-bits", bad(func(d []byte) { d[7] |= 0xc0; d[9] |= 0x80 }))
 	add("vp8-9-bytes", riffFile(chunkBytes("VP8 ", p.VP8[:9])))
-	badl := func(mut func([]byte)) []byte { d := append([]byte(nil), p.VP8L...); mut(d); return riffFile(chunkBytes("VP8L", d)) }
+	badl := func(mut func([]byte)) []byte {
+		d := append([]byte(nil), p.VP8L...)
+		mut(d)
+		return riffFile(chunkBytes("VP8L", d))
+	}
 	add("vp8l-bad-magic", badl(func(d []byte) { d[0] = 0x2e }))
 	add("vp8l-version-1", badl(func(d []byte) { d[4] |= 0x20 }))
 	add("vp8l-4-bytes", riffFile(chunkBytes("VP8L", p.VP8L[:4])))
@@ -584,6 +666,37 @@ func edgeFiles(p *c16Parts, thorough bool) []c16File {
 	// a well-formed animation whose canvas area is >= 2^30: container.Parser rejects it (MaxImageArea), the
 	// demuxer has no such cap; outside the hypotheses of C16_views_agree_anim and counted, not reported
 	add("anim-canvas-area-2^30", riffFile(append(append(chunkBytes("VP8X", vp8xPayload(2, 32768, 32768)), anim...), frame...)))
+	// ANMF whose last sub-chunk has an odd size and no pad byte inside the ANMF payload (the truncation test must
+	// use the padded size: seeded change C05-vi5 panics on these)
+	{
+		noPad := func(id string, payload []byte) []byte {
+			b := make([]byte, 8, 8+len(payload))
+			copy(b, id)
+			binary.LittleEndian.PutUint32(b[4:], uint32(len(payload)))
+			return append(b, payload...)
+		}
+		odd := func(b []byte) []byte {
+			if len(b)%2 == 1 {
+				return b
+			}
+			return append(append([]byte(nil), b...), 0)
+		}
+		for _, v := range []struct {
+			name string
+			sub  []byte
+		}{
+			{"odd-alph-no-pad", noPad("ALPH", odd(p.ALPH))},
+			{"odd-vp8-no-pad", noPad("VP8 ", odd(p.VP8))},
+			{"vp8-then-odd-alph-no-pad", append(chunkBytes("VP8 ", p.VP8), noPad("ALPH", odd(p.ALPH))...)},
+			{"alph-then-odd-vp8-no-pad", append(chunkBytes("ALPH", p.ALPH), noPad("VP8 ", odd(p.VP8A))...)},
+			{"odd-unknown-no-pad", noPad("UNKN", []byte{1, 2, 3})},
+			{"vp8l-then-odd-unknown-no-pad", append(chunkBytes("VP8L", p.VP8L), noPad("UNKN", []byte{7})...)},
+		} {
+			add("anmf-sub-"+v.name, riffFile(append(append([]byte(nil), animHead...), chunkBytes("ANMF", anmfPayload(0, 0, p.W, p.H, 10, 0, v.sub))...)))
+			// and as the second of two frames
+			add("anmf2-sub-"+v.name, riffFile(append(append(append([]byte(nil), animHead...), frame...), chunkBytes("ANMF", anmfPayload(0, 0, p.W, p.H, 10, 0, v.sub))...)))
+		}
+	}
 	add("anim-flag-clear-with-anim-chunks", riffFile(append(append(chunkBytes("VP8X", vp8xPayload(0, p.W, p.H)), anim...), frame...)))
 	add("anim-flag-clear-anim-then-image", riffFile(append(append(chunkBytes("VP8X", vp8xPayload(0, p.W, p.H)), anim...), vp8...)))
 	if thorough {
@@ -791,5 +904,7 @@ func main() {
 		for i := range files {
 			c16Check(c, &files[i])
 		}
+		// 6. the shared limits (10000 frames, 100 MB metadata), direct evaluation
+		c16Limits(c, &parts[0], c.Thorough())
 	})
 }
